@@ -21,7 +21,9 @@ Check(c, o) ==
   \o (IF c.held /\ o.held_status # 200 THEN <<"InFlightRequestNotServed">> ELSE <<>>)
 
 \* process level: the real binary, SIGTERM / SIGINT at a point of a slow request
-ProcCases == [sig : {"TERM", "INT"}, point : {"idle", "before_headers", "mid_body"}, probing : BOOLEAN]
+\* repeat: a second stop signal ("TERM"/"INT") 300 ms after the first, while the request is still draining ("none" = one signal)
+ProcCases == {c \in [sig : {"TERM", "INT"}, point : {"idle", "before_headers", "mid_body"}, probing : BOOLEAN, repeat : {"none", "TERM", "INT"}] :
+                c.repeat # "none" => (c.point # "idle" /\ ~c.probing)}
 \* o = [exit (exit status, -1 = killed by the harness after the bound), ms, status (in-flight request), complete (full body)]
 CheckProc(c, o) ==
   (IF o.exit # 0 THEN <<"ExitStatus">> ELSE <<>>)
